@@ -6,7 +6,10 @@
 #![allow(clippy::all)]
 
 mod alloc_count;
+mod ops_box;
+mod ops_boxobj;
 mod ops_hash;
+mod ops_stream;
 mod util;
 
 use std::io::{BufRead, Write};
@@ -18,11 +21,19 @@ fn dispatch(op: &str, args: &[&str]) -> Ans {
     if let Some(a) = ops_hash::dispatch(op, args) {
         return a;
     }
+    if let Some(a) = ops_box::dispatch(op, args) {
+        return a;
+    }
+    if let Some(a) = ops_stream::dispatch(op, args) {
+        return a;
+    }
     ("bad-op".into(), "bad-op".into())
 }
 
 fn main() {
-    std::panic::set_hook(Box::new(|_| {}));
+    if std::env::var_os("RUNNER_VERBOSE").is_none() {
+        std::panic::set_hook(Box::new(|_| {}));
+    }
     unsafe {
         libsodium_sys::sodium_init();
     }
